@@ -12,7 +12,9 @@ THEOREMS = ['C09.ofForm_eval', 'C09.ofForm_shape', 'C09.propagNeg_spec', 'C09.to
             'C09.saturation_complete', 'C09.prover_decides',
             'C09.prover_translated', 'C09.prover_text_is_the_model', 'C09.prover_text_decides',
             'C09.stage_proofs_translated', 'C09.stage_proofs_conj_form', 'C09.stage_proofs_propag_neg', 'C09.stage_proofs_cnf',
-            'C09.stage_proofs_clauses', 'C09.resolution_proof_conclusion', 'C09.prover_proof_conclusion_is_literal', 'C09.stage_data_is_the_data_slice']
+            'C09.stage_proofs_clauses', 'C09.resolution_proof_conclusion', 'C09.prover_proof_conclusion_is_literal', 'C09.stage_data_is_the_data_slice',
+            'C09.clause_proofs_translated', 'C09.clause_utilities_conclude', 'C09.clause_builders_prove',
+            'C09.resolution_proof_conclusion_closed', 'C09.prover_proof_conclusion_is_literal_closed', 'C09.prover_returns_proof_sound', 'C09.prover_returns_proof_complete', 'C09.prover_returns_proof_iff']
 
 
 def all_forms(size, nv):
